@@ -30,6 +30,11 @@ def run(ctx):
         tb = ctx.drive(["c07b"], out_name="c07b.ndjson")
         eb = vlib.read_ndjson(tb)
         vb = ctx.judge("Trace_C07", tb)
+        # configurations: the coder must not depend on GOMAXPROCS (tables and matrices built at initialisation / construction)
+        tp = ctx.drive(["c07b"], out_name="c07b-procs3.ndjson", env_extra={"GOMAXPROCS": "3"})
+        ep = vlib.read_ndjson(tp)
+        vp = ctx.judge("Trace_C07", tp)
+        eb, vb = archive.combine((eb, vb), (ep, vp))
         ctx.extra["cases_from_tlc"] = len(cases)
         ctx.extra["drift_events"] = drift
         ctx.extra["singular_outcomes_justified_by_tlc"] = sum(1 for e in ea + eb if e["err"] == "singular")
